@@ -65,17 +65,18 @@ type gDefs struct {
 }
 
 type gStep struct {
-	A     string                       `json:"a"`
-	U     string                       `json:"u"`
-	K     string                       `json:"k"`
-	V     string                       `json:"v"`
-	V2    string                       `json:"v2"`
-	Out   string                       `json:"out"`
-	KV    map[string]string            `json:"kv"`
-	Idx   map[string]string            `json:"idx"`
-	Views map[string]map[string]string `json:"views"`
-	Q     map[string][][]string        `json:"q"`
-	Ord   [][]string                   `json:"ord"`
+	A      string                       `json:"a"`
+	U      string                       `json:"u"`
+	K      string                       `json:"k"`
+	V      string                       `json:"v"`
+	V2     string                       `json:"v2"`
+	Out    string                       `json:"out"`
+	KV     map[string]string            `json:"kv"`
+	Idx    map[string]string            `json:"idx"`
+	Deltas int                          `json:"deltas"`
+	Views  map[string]map[string]string `json:"views"`
+	Q      map[string][][]string        `json:"q"`
+	Ord    [][]string                   `json:"ord"`
 }
 
 type gResult struct {
@@ -489,6 +490,17 @@ func gCheckEntries(res []gEntry, exp []string, view map[string]string, dupOK boo
 // Returns the first disagreement, and separately the first repeated-value duplicate.
 func (w *gWorld) check(s *gStep, n int) (mis *gMis, dupMis *gMis) {
 	ctx := w.ctx
+	// 0. per-tx staging buffers held by the indexes: one per open tx that staged a write,
+	// none for ended (committed or aborted) transactions
+	w.li.overlay.deltaMu.Lock()
+	nl := len(w.li.overlay.txDeltas)
+	w.li.overlay.deltaMu.Unlock()
+	w.si.overlay.deltaMu.Lock()
+	ns := len(w.si.overlay.txDeltas)
+	w.si.overlay.deltaMu.Unlock()
+	if nl != s.Deltas || ns != s.Deltas {
+		return &gMis{"residue", "staging buffers kept by the indexes (lookup, sorted)", fmt.Sprint(s.Deltas), fmt.Sprint(nl, ns)}, nil
+	}
 	views := make([]string, 0, len(s.Views))
 	for u := range s.Views {
 		views = append(views, u)
